@@ -412,6 +412,112 @@ let run_parse id rest =
         | Panic _ -> id ^ " ok write-panic"))
   | _ -> id ^ " bad-case"
 
+(* ---- PARTRACE: replay of an implementation event log in the extracted LTS ---- *)
+let run_partrace id rest =
+  match Stdlib.List.map Stdlib.String.trim (Str.split (Str.regexp_string "|") rest) with
+  | [hd; f; h; m; w] ->
+    (match split_on ' ' hd with
+     | [wn; blocks; rf; inv] ->
+       let wn = int_of_string wn and blocks = int_of_string blocks in
+       let invl = if inv = "-" then [] else Stdlib.List.map int_of_string (split_on ',' inv) in
+       let plan = { Par.p_workers = nat_of_int wn; p_blocks = nat_of_int blocks;
+                    p_read_fail = (if rf = "-" then None else Some (nat_of_int (int_of_string rf)));
+                    p_invalid = (fun n -> Stdlib.List.mem (int_of_nat n) invl) } in
+       let toks pref x =
+         let body = Stdlib.String.sub x (Stdlib.String.length pref) (Stdlib.String.length x - Stdlib.String.length pref) in
+         if Stdlib.String.trim body = "" then [] else split_on ',' (Stdlib.String.trim body) in
+       let fq = ref (toks "F:" f) and hq = ref (toks "H:" h) and mq = ref (toks "M:" m) in
+       let wbody = Stdlib.String.trim (Stdlib.String.sub w 2 (Stdlib.String.length w - 2)) in
+       let wlists = if wbody = "" then [] else Stdlib.List.map (fun x -> if x = "" then [] else split_on ',' x) (split_on ';' wbody) in
+       let wq = Array.make wn [] in
+       Stdlib.List.iteri (fun i l -> if i < wn then wq.(i) <- l) wlists;
+       let st = ref (Par.init plan) in
+       let steps = ref 0 in
+       (* the refill queue is FIFO with a single consumer: the feeder's G tokens fix the order in
+          which the workers must have returned their buffers *)
+       let gseq = Array.of_list (Stdlib.List.filter_map (fun t -> if t.[0] = 'G' then Some (int_of_string (Stdlib.String.sub t 1 (Stdlib.String.length t - 1))) else None) !fq) in
+       let pushes = ref 0 in
+       let nbufs = int_of_nat (Par.nbuf plan) in
+       let push_ok b = let k = nbufs + !pushes in k >= Array.length gseq || gseq.(k) = b in
+       let num x = int_of_string (Stdlib.String.sub x 1 (Stdlib.String.length x - 1)) in
+       let try_label l = match Par.step plan !st l with Some s' -> st := s'; incr steps; true | None -> false in
+       (* data consistency checks before firing *)
+       let try_f () = match !fq with
+         | [] -> false
+         | t :: r ->
+           let ok = (match t.[0] with
+             | 'G' -> (match (!st).Par.s_refill with b :: _ -> int_of_nat b = num t | [] -> false) && try_label Par.LFRecv
+             | 'N' -> int_of_nat (!st).Par.s_next = num t && not (Par.read_fails plan !st) && int_of_nat (!st).Par.s_next < blocks && try_label Par.LFRead
+             | 'Z' -> not (Par.read_fails plan !st) && int_of_nat (!st).Par.s_next >= blocks && try_label Par.LFRead
+             | 'F' -> Par.read_fails plan !st && try_label Par.LFRead
+             | 'S' -> (match (!st).Par.s_f with Par.FSend b -> int_of_nat b = num t | _ -> false) && try_label Par.LFSend
+             | 'T' -> try_label Par.LFStop
+             | _ -> false) in
+           if ok then fq := r; ok in
+       let try_h () = match !hq with
+         | [] -> false
+         | t :: r ->
+           let ok = (match (!st).Par.s_hashq with
+             | Some _ :: _ -> t = "D" && try_label Par.LHRecv
+             | None :: _ -> t = "E" && try_label Par.LHRecv
+             | [] -> false) in
+           if ok then hq := r; ok in
+       let try_m () = match !mq with
+         | [] -> false
+         | t :: r ->
+           let ok = (match t with
+             | "SH" -> (if !fq = [] then ignore (try_label Par.LFDone)); try_label Par.LMStopHash
+             | "JH" -> try_label Par.LMJoinHash
+             | "JW" -> try_label Par.LMJoinWorkers
+             | _ -> false) in
+           if ok then mq := r; ok in
+       let try_w i = match wq.(i) with
+         | [] -> false
+         | t :: r ->
+           let ni = nat_of_int i in
+           let ok = (match t.[0] with
+             | 'R' -> (match (!st).Par.s_encq with
+                       | Some b :: _ -> t <> "RN" && int_of_nat b = num t && try_label (Par.LWRecv ni)
+                       | None :: _ -> t = "RN" && try_label (Par.LWRecv ni)
+                       | [] -> false)
+             | 'E' -> (match split_on ':' (Stdlib.String.sub t 1 (Stdlib.String.length t - 1)) with
+                       | [n; okf] ->
+                         let n = int_of_string n in
+                         (match Stdlib.List.nth_opt (Stdlib.List.map (fun x -> x) (!st).Par.s_w) i with
+                          | Some (Par.WEnc b) ->
+                            (match Stdlib.List.nth_opt (!st).Par.s_bufs (int_of_nat b) with
+                             | Some (Some fn) -> int_of_nat fn = n && (Stdlib.List.mem n invl) = (okf = "0") && push_ok (int_of_nat b)
+                                                 && (if try_label (Par.LWEnc ni) then (incr pushes; true) else false)
+                             | _ -> false)
+                          | _ -> false)
+                       | _ -> false)
+             | 'P' -> (match Stdlib.List.nth_opt (!st).Par.s_w i with
+                       | Some (Par.WPush n) -> int_of_nat n = num t && try_label (Par.LWPush ni)
+                       | _ -> false)
+             | _ -> false) in
+           if ok then wq.(i) <- r; ok in
+       let progress = ref true in
+       while !progress do
+         progress := false;
+         if try_f () then progress := true
+         else if try_h () then progress := true
+         else begin
+           let fired = ref false in
+           for i = 0 to wn - 1 do if not !fired && try_w i then fired := true done;
+           if !fired then progress := true else if try_m () then progress := true
+         end
+       done;
+       let left = Stdlib.List.length !fq + Stdlib.List.length !hq + Stdlib.List.length !mq + Array.fold_left (fun a l -> a + Stdlib.List.length l) 0 wq in
+       let outcome o = (match o with Par.OutOk (fr, hs) -> Printf.sprintf "ok:%d:%d" (Stdlib.List.length fr) (Stdlib.List.length hs) | Par.OutConfigErr -> "err-config" | Par.OutSourceErr -> "err-source") in
+       if left = 0 && Par.final !st then
+         Printf.sprintf "%s valid steps=%d lts=%s seq=%s" id !steps (outcome (Par.result_of !st)) (outcome (Par.seq_result plan))
+       else
+         Printf.sprintf "%s stuck steps=%d left=%d next=F:%s,H:%s,M:%s seq=%s" id !steps left
+           (match !fq with t :: _ -> t | [] -> "-") (match !hq with t :: _ -> t | [] -> "-") (match !mq with t :: _ -> t | [] -> "-")
+           (outcome (Par.seq_result plan))
+     | _ -> id ^ " bad-case")
+  | _ -> id ^ " bad-case"
+
 let run_line (line : string) : string =
   match split_on ' ' line with
   | stream :: id :: _ ->
@@ -429,6 +535,7 @@ let run_line (line : string) : string =
        | "SRC" -> run_src id rest
        | "CFG" -> run_cfg id rest
        | "PARSE" -> run_parse id rest
+       | "PARTRACE" -> run_partrace id rest
        | "RICE" -> run_rice id rest
        | _ -> id ^ " unknown-stream")
      with Stack_overflow -> id ^ " model-stack-overflow")
